@@ -201,6 +201,22 @@ def check_spec_case(run, o, k, text_variants, spec_dec, label):
                           {'kind': 'failing-input', 'suite': 'spec-c01', 'input': {'rule': text, 'k': k},
                            'expected': spec_dec, 'observed': got})
             return False
+    if k >= 1 and len(text_variants[0]) % 2 == 0:
+        # the last leaf replaced by a constant: '@' (always true) or '!' (always false)
+        last = 'role:r%d' % (k - 1)
+        for const, bit in (('@', 1), ('!', 0)):
+            text = text_variants[0].replace(last, const)
+            got = impl_decisions(text, k - 1) if k > 1 else impl_decisions(text, 0)
+            want = [spec_dec[m | (bit << (k - 1))] for m in range(2 ** (k - 1))]
+            run.evaluations += 1
+            if got != want:
+                bad = [m for m in range(len(got)) if got[m] != want[m]][0]
+                run.violation('decision:%s:constants' % label,
+                              'rule %r decides %r under roles mask %d, documented value %r'
+                              % (text, got[bad], bad, want[bad]),
+                              {'kind': 'failing-input', 'suite': 'spec-c01', 'input': {'rule': text, 'k': k - 1},
+                               'expected': want, 'observed': got})
+                return False
     if k <= 3 and len(text_variants[0]) % 3 == 0:
         got = custom_leaf_decisions(text_variants[0], k, len(text_variants[0]))
         run.evaluations += 1
